@@ -1183,15 +1183,15 @@ WITNESSES = [
      "C19:index_select:dim0-perm"),
     ("permute_batch_channel", {"input": dict(_B2, c=2), "other": None, "ops": [{"op": "transpose", "d0": 0, "d1": 1}]},
      "C19:permute:batch-moved"),
-    ("narrow_method_negdim", {"input": _B2, "other": None, "ops": [{"op": "narrowm", "dim": -4, "start": 1, "len": 1}]},
-     "C19:narrow:method:negative-dim"),
-    ("flow_copy", {"input": _F2, "other": None, "ops": [{"op": "copy"}]}, "C19:copy:flow-raises"),
+    # repaired (31c6369, a040c96, e158d15, e37fd36, 018b42a, 5463a8b, d25ad21)
+    ("narrow_method_negdim", {"input": _B2, "other": None, "ops": [{"op": "narrowm", "dim": -4, "start": 1, "len": 1}]}, None),
+    ("narrow_method_negdim_spatial", {"input": _B2, "other": None, "ops": [{"op": "narrowm", "dim": -1, "start": 1, "len": 1}]}, None),
+    ("flow_copy", {"input": _F2, "other": None, "ops": [{"op": "copy"}]}, None),
     ("flowfield_copy", {"input": {"kind": "I", "flow": True, "c": 2, "spatial": [2, 2], "id": 0, "axes": 1}, "other": None,
-                        "ops": [{"op": "copy"}]}, "C19:copy:flow-raises"),
-    ("from_images_axes", {"input": _F2, "other": None, "ops": [{"op": "iter"}, {"op": "fromimages"}]},
-     "C19:from_images:axes-dropped"),
-    ("append_axes", {"input": _F1, "other": dict(_F1, base=10, axes=2), "ops": [{"op": "append"}]}, "C19:append:axes-mismatch"),
-    # repaired (31c6369, a040c96, e158d15, e37fd36)
+                        "ops": [{"op": "copy"}]}, None),
+    ("from_images_axes", {"input": _F2, "other": None, "ops": [{"op": "iter"}, {"op": "fromimages"}]}, None),
+    ("append_axes", {"input": _F1, "other": dict(_F1, base=10, axes=2), "ops": [{"op": "append"}]}, None),   # raises now
+    ("append_same_axes", {"input": _F1, "other": dict(_F1, base=10), "ops": [{"op": "append"}]}, None),
     ("split_sections", {"input": _B3, "other": None, "ops": [{"op": "splitl", "l": [1, 2], "dimform": "d"}]}, None),
     ("split_with_sizes", {"input": _B3, "other": None, "ops": [{"op": "splitws", "l": [1, 2], "dimform": "d"}]}, None),
     ("bool_mask", {"input": _B3, "other": None, "ops": [_single({"k": "mask", "v": [True, False, True]})]}, None),
@@ -1373,9 +1373,12 @@ def check_program(case) -> Optional[Tuple[str, str]]:
             return None  # I-1: nothing is yielded
         if op["op"] == "narrowm" and isinstance(prev, (Image, ImageBatch)):
             # the only operation of the vocabulary that derives grids: the correct grid of item k is narrowed alike
-            d = op["dim"]
-            gd = prev.ndim - d - 1
-            if (d > 1 if isinstance(prev, ImageBatch) else d > 0) and 0 <= gd:
+            # dimension of the (1-)batch tensor as ImageBatch.narrow sees it (negative dims are normalised there)
+            bd, nd_b = (op["dim"], prev.ndim) if isinstance(prev, ImageBatch) else (op["dim"] + 1, prev.ndim + 1)
+            if bd < 0:
+                bd += nd_b
+            gd = nd_b - bd - 1
+            if bd > 1 and 0 <= gd:
                 for k in list(expected):
                     if expected[k].ndim > gd and tuple(expected[k].shape) == tuple(prev.shape[-expected[k].ndim:]):
                         expected[k] = expected[k].narrow(gd, op["start"], op["len"])
